@@ -35,7 +35,7 @@ package clients
 // The client's regex object: '', '.', '.*' become the noop regex, otherwise the
 // default or (with --invert) the invert flag and the pattern as given.
 //@ func (*baseClient).init
-//@   at-call regex.New [flag-from-args] arg0 == c.Args.RegexStr && arg1 == ite(c.Args.RegexInvert, 2, 1)
+//@   at-call regex.New [flag-from-args] arg0 == old(c.Args.RegexStr) && arg1 == ite(old(c.Args.RegexInvert), 2, 1)
 
 // ---- one connection per discovered server (C18) ---------------------------------------------------
 //@ func (*baseClient).makeConnections
